@@ -63,8 +63,11 @@ def _loops_of(node):
 
 
 class IRFlow:
-    def __init__(self, pm, ia, modules, template_analyses=(), preserve_aliases=False):
-        self.pm, self.ia, self.fam = pm, ia, ia.fam
+    def __init__(self, pm, ia, modules, template_analyses=(), preserve_aliases=False,
+                 family=None, seed_hook=None):
+        self.pm, self.ia = pm, ia
+        self.fam = family or ia.fam
+        self.seed_hook = seed_hook
         self.modules = tuple(modules)
         self.U = ia.backend_universe(preserve_aliases)
         self.funcs = [f for m in self.modules for f in pm.funcs_in(m)]
@@ -367,6 +370,10 @@ class IRFlow:
     def _seed(self, f, e, depth=6, at=None, stack=()):
         if depth < 0:
             return None
+        if self.seed_hook is not None:
+            r = self.seed_hook(self, f, e, at)
+            if r is not NotImplemented:
+                return r
         if isinstance(e, ast.Attribute) and e.attr in TYPED_ATTRS:
             t = TYPED_ATTRS[e.attr]
             if e.attr == 'parent_type':
@@ -517,30 +524,43 @@ class IRFlow:
 
     # ------------------------------------------------------------ callee preconditions
     def must_raise(self, g, pname):
-        """Classes of parameter ``pname`` for which ``g`` certainly raises: a
-        raise statement all of whose path conditions are class tests on it."""
+        """Classes of parameter ``pname`` for which ``g`` never returns normally:
+        the complement of the classes consistent with some path that reaches a
+        return or the end of the function.  Calls of nested helpers that only
+        raise count as raises."""
         key = (g.qualname, pname, 'must-raise')
         if key in self._pu:
             return self._pu[key]
-        pi = path_info(g.node)
+        from .model import AnalysisError
+        from .paths import enumerate_paths
+        from .pathcond import terminates
         full = self.fam.universe()
-        out = set()
+        out = frozenset()
         if not defs(g.node).values.get(pname):
-            for n in own_nodes(g.node):
-                if not isinstance(n, ast.Raise):
-                    continue
-                cur = set(full)
-                pure = True
-                for e, pol in pi.at(n):
-                    t = class_test(self.pm, self.fam, g.module, e, pname)
-                    if t is None:
-                        pure = False
-                        break
-                    cur &= (t if pol else full - t)
-                if pure and pi.at(n):
-                    out |= cur
-        self._pu[key] = frozenset(out)
-        return self._pu[key]
+            raisers = tuple(nm for nm, h in g.nested.items()
+                            if terminates(h.node.body) and not any(
+                                isinstance(x, ast.Return) for x in own_nodes(h.node)))
+            try:
+                paths = enumerate_paths(g.node, max_paths=4000, local_raisers=raisers)
+            except AnalysisError:
+                paths = None
+            if paths is not None:
+                may = set()
+                tested = False
+                for p in paths:
+                    if p.end == 'raise':
+                        continue
+                    cur = set(full)
+                    for e, pol in p.atoms:
+                        t = class_test(self.pm, self.fam, g.module, e, pname)
+                        if t is not None:
+                            tested = True
+                            cur &= (t if pol else full - t)
+                    may |= cur
+                if tested:
+                    out = frozenset(full - may)
+        self._pu[key] = out
+        return out
 
     def _guaranteed_calls(self, stmt):
         """Calls that certainly ran when control passed ``stmt``."""
